@@ -6,7 +6,7 @@
    (node insertion order), the adjacency list of phi u is a permutation of the renamed adjacency
    list of u (edge insertion order), phi is injective.  Both are simple undirected graphs.
    The request (initial_infecteds, initial_recovereds, rho) is renamed along phi. *)
-From EoNV Require Import Prelude Graph Aux Vec IC Wrappers VecP AuxP ICP ICHand ICEquiv Rhs2D Rhs2DP C14xDef C14xRhs.
+From EoNV Require Import Prelude Graph Aux Vec IC Wrappers VecP AuxP ICP ICHand ICEquiv Rhs2D Rhs2DP C14xDef C14xRhs C14xOut.
 From Coq Require Import Permutation Lqa Setoid Morphisms.
 
 Definition map_req (phi : node -> node) (rq : icreq) : icreq :=
@@ -280,4 +280,272 @@ Proof.
     + apply iso_cnt. intros u _. rewrite HS, HI2. reflexivity.
   - rewrite iso_rho_or_default, iso_Nk. f_equal. f_equal. apply sqmat_ext; intros s i; apply iso_ed_rho_entry.
 Qed.
+
+(* ====================================================================== *)
+(* whole outputs up to equality of rationals, for every solver that is a   *)
+(* function of the numbers it is given: the wrappers whose solver arguments *)
+(* are sums over G.edges() / over the degree distribution                  *)
+(* ====================================================================== *)
+Ltac init_cases2 I0 R0 st' st Hst :=
+  let HI := fresh "HI" in
+  pose proof (iso_initialize_node_status I0 R0) as HI; cbn [option_map] in HI |- *;
+  destruct (initialize_node_status g' (map phi I0) _) as [st'|?], (initialize_node_status g I0 _) as [st|?];
+  try contradiction; [rename HI into Hst|subst; cbn [rbind req]; reflexivity].
+
+Definition same_st (st : status) (u v : node) : bool := N.eqb (st u) (st v).
+Lemma same_st_sym st u v : same_st st u v = same_st st v u.
+Proof. unfold same_st. apply N.eqb_sym. Qed.
+Lemma same_isS (st : status) u v : (N.eqb (st u) (st v) && isS st u)%bool = (N.eqb (st v) (st u) && isS st v)%bool.
+Proof.
+  unfold isS. destruct (N.eqb_spec (st u) (st v)) as [E|E].
+  - rewrite E, N.eqb_refl. reflexivity.
+  - replace (N.eqb (st v) (st u)) with false by (symmetry; apply N.eqb_neq; congruence). reflexivity.
+Qed.
+
+Section WithSolver.
+Variable sv : solver.
+Hypothesis SV : solver_proper sv.
+
+Theorem iso_SIS_homogeneous_pairwise rq full :
+  req oeq (SIS_homogeneous_pairwise_from_graph g' (map_req phi rq) full sv) (SIS_homogeneous_pairwise_from_graph g rq full sv).
+Proof.
+  unfold SIS_homogeneous_pairwise_from_graph, map_req. cbn [rq_I rq_R rq_rho]. rewrite !isSome_map. cbv zeta.
+  destruct (isSome (rq_rho rq) && isSome (rq_I rq)); [reflexivity|]. rewrite iso_gN, iso_rho_or_default.
+  destruct (rq_I rq) as [I0|]; cbn [option_map].
+  - init_cases2 I0 (@None (list node)) st' st Hst. cbn [rbind]. rewrite len_map.
+    assert (HS : forall u, isS st' (phi u) = isS st u) by (intros u; unfold isS; rewrite Hst; reflexivity).
+    apply SIS_homogeneous_pairwise_proper; try exact SV; try reflexivity; try apply iso_mean_degree.
+    + apply (esum_iso (fun u v => if N.eqb (st u) (st v) then 0 else 1) (fun u v => if N.eqb (st' u) (st' v) then 0 else 1)).
+      * intros u v. rewrite (N.eqb_sym (st u)). reflexivity.
+      * intros u v. rewrite (N.eqb_sym (st' u)). reflexivity.
+      * intros u v. rewrite !Hst. reflexivity.
+    + apply (esum_iso (fun u v => if N.eqb (st u) (st v) && isS st u then 2 else 0) (fun u v => if N.eqb (st' u) (st' v) && isS st' u then 2 else 0)).
+      * intros u v. rewrite (same_isS st u v). reflexivity.
+      * intros u v. rewrite (same_isS st' u v). reflexivity.
+      * intros u v. rewrite !Hst, HS. reflexivity.
+  - pose proof iso_mean_degree as Hn.
+    apply SIS_homogeneous_pairwise_proper; try exact SV; peq.
+Qed.
+
+Theorem iso_SIR_homogeneous_pairwise rq full :
+  req oeq (SIR_homogeneous_pairwise_from_graph g' (map_req phi rq) full sv) (SIR_homogeneous_pairwise_from_graph g rq full sv).
+Proof.
+  unfold SIR_homogeneous_pairwise_from_graph, map_req. cbn [rq_I rq_R rq_rho]. rewrite !isSome_map. cbv zeta.
+  destruct (isSome (rq_rho rq) && isSome (rq_I rq)); [reflexivity|].
+  destruct (isSome (rq_rho rq) && isSome (rq_R rq)); [reflexivity|]. rewrite iso_gN, iso_rho_or_default.
+  pose proof iso_mean_degree as Hn.
+  destruct (rq_I rq) as [I0|]; cbn [option_map].
+  - set (R0l := match rq_R rq with None => [] | Some r => r end).
+    assert (ER : match option_map (map phi) (rq_R rq) with None => [] | Some r => r end = map phi R0l) by (destruct (rq_R rq); reflexivity).
+    rewrite ER. init_cases2 I0 (Some R0l) st' st Hst. cbn [rbind]. rewrite !len_map.
+    destruct (iso_count_edge_types st st' Hst) as [C1 [C2 C3]].
+    destruct (count_edge_types_st g' st') as [[a' b'] c'], (count_edge_types_st g st) as [[a b] c]. cbn [fst snd] in *.
+    apply SIR_homogeneous_pairwise_proper; try exact SV; peq.
+  - apply SIR_homogeneous_pairwise_proper; try exact SV; peq.
+Qed.
+
+(* _get_NkNl_and_IC_as_arrays_ *)
+Definition nknl_eq (a b : nknl) : Prop :=
+  kk_Ks a = kk_Ks b /\ meq (kk_NkNl a) (kk_NkNl b) /\ meq (kk_SkSl a) (kk_SkSl b) /\ meq (kk_SkIl a) (kk_SkIl b) /\ meq (kk_IkIl a) (kk_IkIl b).
+Theorem iso_get_NkNl_and_IC rq : req nknl_eq (get_NkNl_and_IC g' (map_req phi rq)) (get_NkNl_and_IC g rq).
+Proof.
+  unfold get_NkNl_and_IC, map_req. cbn [rq_I rq_R rq_rho]. rewrite !isSome_map. cbv zeta.
+  destruct (isSome (rq_rho rq) && isSome (rq_I rq)); [reflexivity|].
+  destruct (isSome (rq_rho rq) && isSome (rq_R rq)); [reflexivity|]. rewrite iso_Ks, iso_rho_or_default.
+  assert (K1 : meq (kmat g' (Ks_of g) (fun _ _ => 1)) (kmat g (Ks_of g) (fun _ _ => 1))) by (apply iso_kmat; reflexivity).
+  destruct (rq_I rq) as [I0|]; cbn [option_map].
+  - init_cases2 I0 (rq_R rq) st' st Hst. cbn [rbind req]. unfold nknl_eq. cbn [kk_Ks kk_NkNl kk_SkSl kk_SkIl kk_IkIl].
+    assert (HS : forall u, isS st' (phi u) = isS st u) by (intros u; unfold isS; rewrite Hst; reflexivity).
+    assert (HI2 : forall u, isI st' (phi u) = isI st u) by (intros u; unfold isI; rewrite Hst; reflexivity).
+    repeat split; try exact K1; apply iso_kmat; intros u v; rewrite ?HS, ?HI2; reflexivity.
+  - cbn [req]. unfold nknl_eq. cbn [kk_Ks kk_NkNl kk_SkSl kk_SkIl kk_IkIl].
+    repeat split; try exact K1; apply mc_scale; try reflexivity; exact K1.
+Qed.
+
+Theorem iso_SIS_heterogeneous_pairwise rq full :
+  req oeq (SIS_heterogeneous_pairwise_from_graph g' (map_req phi rq) full sv) (SIS_heterogeneous_pairwise_from_graph g rq full sv).
+Proof.
+  unfold SIS_heterogeneous_pairwise_from_graph. cbv zeta. cbn [map_req rq_I rq_R rq_rho].
+  change (mkReq (option_map (map phi) (rq_I rq)) None (rq_rho rq)) with (map_req phi (mkReq (rq_I rq) None (rq_rho rq))).
+  rewrite iso_get_Nk_and_IC. destruct (get_Nk_and_IC g _ false) as [ic|e]; [|reflexivity]. cbn [rbind].
+  pose proof (iso_get_NkNl_and_IC (mkReq (rq_I rq) None (rq_rho rq))) as HK.
+  destruct (get_NkNl_and_IC g' _) as [kk'|?], (get_NkNl_and_IC g _) as [kk|?]; cbn [req] in HK; try contradiction;
+    [|subst; reflexivity]. cbn [rbind]. destruct HK as (E & H1 & H2 & H3 & H4). rewrite E.
+  apply SIS_heterogeneous_pairwise_proper; try exact SV; try assumption; reflexivity.
+Qed.
+Theorem iso_SIR_heterogeneous_pairwise rq full :
+  req oeq (SIR_heterogeneous_pairwise_from_graph g' (map_req phi rq) full sv) (SIR_heterogeneous_pairwise_from_graph g rq full sv).
+Proof.
+  unfold SIR_heterogeneous_pairwise_from_graph. cbv zeta.
+  rewrite iso_get_Nk_and_IC. destruct (get_Nk_and_IC g _ true) as [ic|e]; [|reflexivity]. cbn [rbind].
+  pose proof (iso_get_NkNl_and_IC rq) as HK.
+  destruct (get_NkNl_and_IC g' _) as [kk'|?], (get_NkNl_and_IC g _) as [kk|?]; cbn [req] in HK; try contradiction;
+    [|subst; reflexivity]. cbn [rbind]. destruct HK as (E & H1 & H2 & H3 & H4). rewrite E.
+  apply SIR_heterogeneous_pairwise_proper; try exact SV; try assumption; reflexivity.
+Qed.
+
+(* _count_edge_types_ as the wrappers call it *)
+Lemma iso_count_edge_types_res I0 R0 :
+  req (fun c' c => fst (fst c') == fst (fst c) /\ snd (fst c') == snd (fst c) /\ snd c' == snd c)
+      (count_edge_types g' (map phi I0) (option_map (map phi) R0)) (count_edge_types g I0 R0).
+Proof.
+  unfold count_edge_types. init_cases2 I0 R0 st' st Hst. cbn [rbind req]. apply iso_count_edge_types, Hst.
+Qed.
+Lemma rho_sel_iso rq :
+  match rq_rho rq, option_map (map phi) (rq_I rq) with None, None => Some (1 / gN g') | r, _ => r end =
+  match rq_rho rq, rq_I rq with None, None => Some (1 / gN g) | r, _ => r end.
+Proof. rewrite iso_gN. destruct (rq_rho rq), (rq_I rq); reflexivity. Qed.
+
+Theorem iso_SIS_compact_pairwise rq full :
+  req oeq (SIS_compact_pairwise_from_graph g' (map_req phi rq) full sv) (SIS_compact_pairwise_from_graph g rq full sv).
+Proof.
+  unfold SIS_compact_pairwise_from_graph. cbv zeta. cbn [map_req rq_I rq_R rq_rho]. rewrite !isSome_map.
+  destruct (isSome (rq_rho rq) && isSome (rq_I rq)); [reflexivity|]. rewrite rho_sel_iso.
+  set (rho := match rq_rho rq, rq_I rq with None, None => Some (1 / gN g) | r, _ => r end).
+  change (mkReq (option_map (map phi) (rq_I rq)) None rho) with (map_req phi (mkReq (rq_I rq) None rho)).
+  rewrite iso_get_Nk_and_IC. destruct (get_Nk_and_IC g _ false) as [ic|e]; [|reflexivity]. cbn [rbind].
+  destruct (rq_I rq) as [I0|]; cbn [option_map].
+  - pose proof (iso_count_edge_types_res I0 None) as HC. cbn [option_map] in HC.
+    destruct (count_edge_types g' _ _) as [[[a' b'] c']|?], (count_edge_types g _ _) as [[[a b] c]|?]; cbn [req] in HC; try contradiction;
+      [|subst; reflexivity]. cbn [rbind req fst snd] in *. destruct HC as (C1 & C2 & C3).
+    apply SIS_compact_pairwise_proper; try exact SV; try assumption; reflexivity.
+  - destruct rho as [r|]; [|reflexivity]. cbn [req]. rewrite iso_classes. apply oeq_refl.
+Qed.
+Theorem iso_SIR_compact_pairwise rq full :
+  req oeq (SIR_compact_pairwise_from_graph g' (map_req phi rq) full sv) (SIR_compact_pairwise_from_graph g rq full sv).
+Proof.
+  unfold SIR_compact_pairwise_from_graph. cbv zeta. cbn [map_req rq_I rq_R rq_rho]. rewrite !isSome_map.
+  destruct (isSome (rq_rho rq) && isSome (rq_I rq)); [reflexivity|]. rewrite rho_sel_iso.
+  set (rho := match rq_rho rq, rq_I rq with None, None => Some (1 / gN g) | r, _ => r end).
+  change (mkReq (option_map (map phi) (rq_I rq)) (option_map (map phi) (rq_R rq)) rho) with (map_req phi (mkReq (rq_I rq) (rq_R rq) rho)).
+  rewrite iso_get_Nk_and_IC. destruct (get_Nk_and_IC g _ true) as [ic|e]; [|reflexivity]. cbn [rbind].
+  destruct (rq_I rq) as [I0|]; cbn [option_map].
+  - pose proof (iso_count_edge_types_res I0 (rq_R rq)) as HC.
+    destruct (count_edge_types g' _ _) as [[[a' b'] c']|?], (count_edge_types g _ _) as [[[a b] c]|?]; cbn [req] in HC; try contradiction;
+      [|subst; reflexivity]. cbn [rbind req fst snd] in *. destruct HC as (C1 & C2 & C3).
+    apply SIR_compact_pairwise_proper; try exact SV; try assumption; reflexivity.
+  - destruct rho as [r|]; [|reflexivity]. cbn [req]. apply oeq_refl.
+Qed.
+
+Theorem iso_SIS_super_compact_pairwise rq full :
+  req oeq (SIS_super_compact_pairwise_from_graph g' (map_req phi rq) full sv) (SIS_super_compact_pairwise_from_graph g rq full sv).
+Proof.
+  unfold SIS_super_compact_pairwise_from_graph. cbv zeta. cbn [map_req rq_I rq_R rq_rho]. rewrite !isSome_map.
+  destruct (isSome (rq_rho rq) && isSome (rq_I rq)); [reflexivity|].
+  change (mkReq (option_map (map phi) (rq_I rq)) None (rq_rho rq)) with (map_req phi (mkReq (rq_I rq) None (rq_rho rq))).
+  rewrite iso_get_Nk_and_IC. destruct (get_Nk_and_IC g _ false) as [ic|e]; [|reflexivity]. cbn [rbind].
+  destruct (rq_I rq) as [I0|]; cbn [option_map].
+  - pose proof (iso_count_edge_types_res I0 None) as HC. cbn [option_map] in HC.
+    destruct (count_edge_types g' _ _) as [[[a' b'] c']|?], (count_edge_types g _ _) as [[[a b] c]|?]; cbn [req] in HC; try contradiction;
+      [|subst; reflexivity]. cbn [rbind req fst snd] in *. destruct HC as (C1 & C2 & C3).
+    apply SIS_super_compact_pairwise_proper; try exact SV; try assumption; reflexivity.
+  - cbn [req]. rewrite iso_rho_or_default. apply oeq_refl.
+Qed.
+
+Lemma psihat_Sk_iso (Sk : vec) (N : Q) a b : a == b ->
+  sumPk g' (fun k => vnth k Sk * qpow a (Z.of_nat k)) / N == sumPk g (fun k => vnth k Sk * qpow b (Z.of_nat k)) / N.
+Proof. intros H. apply qc_div; [|reflexivity]. apply iso_sumPk. intros k. rewrite (qc_pow a b _ H). reflexivity. Qed.
+Lemma psihat_Pk_iso c a b : a == b ->
+  c * sumPk g' (fun k => Pk (degseq g') k * qpow a (Z.of_nat k)) == c * sumPk g (fun k => Pk (degseq g) k * qpow b (Z.of_nat k)).
+Proof. intros H. apply qc_mult; [reflexivity|]. apply iso_sumPk. intros k. rewrite iso_Pk, (qc_pow a b _ H). reflexivity. Qed.
+
+Theorem iso_SIR_super_compact_pairwise rq full :
+  req oeq (SIR_super_compact_pairwise_from_graph g' (map_req phi rq) full sv) (SIR_super_compact_pairwise_from_graph g rq full sv).
+Proof.
+  unfold SIR_super_compact_pairwise_from_graph. cbv zeta. cbn [map_req rq_I rq_R rq_rho]. rewrite !isSome_map.
+  destruct (isSome (rq_rho rq) && isSome (rq_I rq)); [reflexivity|]. rewrite rho_sel_iso.
+  set (rho := match rq_rho rq, rq_I rq with None, None => Some (1 / gN g) | r, _ => r end).
+  change (mkReq (option_map (map phi) (rq_I rq)) (option_map (map phi) (rq_R rq)) rho) with (map_req phi (mkReq (rq_I rq) (rq_R rq) rho)).
+  rewrite iso_get_Nk_and_IC. destruct (get_Nk_and_IC g _ true) as [ic|e]; [|reflexivity]. cbn [rbind]. rewrite iso_gN.
+  destruct (rq_I rq) as [I0|]; cbn [option_map].
+  - pose proof (iso_count_edge_types_res I0 (rq_R rq)) as HC.
+    destruct (count_edge_types g' _ _) as [[[a' b'] c']|?], (count_edge_types g _ _) as [[[a b] c]|?]; cbn [req] in HC; try contradiction;
+      [|subst; reflexivity]. cbn [rbind req fst snd] in *. destruct HC as (C1 & C2 & C3).
+    apply SIR_super_compact_pairwise_proper; try exact SV; try assumption; try reflexivity.
+    intros x y Hxy. apply psihat_Sk_iso, Hxy.
+  - destruct rho as [r|]; [|reflexivity]. cbn [req].
+    apply SIR_super_compact_pairwise_proper; try exact SV; try reflexivity.
+    intros x y Hxy. apply psihat_Pk_iso, Hxy.
+Qed.
+
+Theorem iso_SIR_compact_effective_degree rq full :
+  req oeq (SIR_compact_effective_degree_from_graph g' (map_req phi rq) full sv) (SIR_compact_effective_degree_from_graph g rq full sv).
+Proof.
+  unfold SIR_compact_effective_degree_from_graph, map_req. cbn [rq_I rq_R rq_rho]. rewrite !isSome_map. cbv zeta.
+  destruct (isSome (rq_rho rq) && isSome (rq_I rq)); [reflexivity|].
+  destruct (isSome (rq_rho rq) && isSome (rq_R rq)); [reflexivity|].
+  rewrite nodes_match.
+  assert (MC : forall (l : list node) (x y y' : result output), req oeq y y' ->
+            req oeq (match l with [] => x | _ :: _ => y end) (match l with [] => x | _ :: _ => y' end))
+    by (intros l x y y' H; destruct l; [apply req_refl, oeq_refl|exact H]).
+  apply MC.
+  destruct (rq_I rq) as [I0|]; cbn [option_map].
+  - init_cases2 I0 (rq_R rq) st' st Hst. cbn [rbind req].
+    assert (HS : forall u, isS st' (phi u) = isS st u) by (intros u; unfold isS; rewrite Hst; reflexivity).
+    assert (HI2 : forall u, isI st' (phi u) = isI st u) by (intros u; unfold isI; rewrite Hst; reflexivity).
+    assert (HR : forall u, isR st' (phi u) = isR st u) by (intros u; unfold isR; rewrite Hst; reflexivity).
+    apply SIR_compact_effective_degree_proper; try exact SV.
+    + rewrite iso_classes.
+      assert (EQ : map (fun kap => cnt (fun u => isS st' u && Nat.eqb (nbr_count g' (fun v => negb (isR st' v)) u) kap) (gnodes g')) (classes g) =
+                   map (fun kap => cnt (fun u => isS st u && Nat.eqb (nbr_count g (fun v => negb (isR st v)) u) kap) (gnodes g)) (classes g)).
+      { apply map_ext. intros kap. apply iso_cnt. intros u Hu. rewrite HS.
+        rewrite (iso_nbr_count (fun v => negb (isR st v)) (fun v => negb (isR st' v)) u) by (try exact Hu; intros v; rewrite HR; reflexivity). reflexivity. }
+      rewrite EQ. reflexivity.
+    + rewrite (iso_cnt (isI st) (isI st')) by (intros u _; apply HI2). reflexivity.
+    + rewrite (iso_cnt (fun u => negb (isS st u) && negb (isI st u)) (fun u => negb (isS st' u) && negb (isI st' u))) by (intros u _; rewrite HS, HI2; reflexivity).
+      reflexivity.
+    + apply node_sum_iso. intros u Hu. rewrite HS, (iso_nbr_count (isI st) (isI st') u HI2 Hu). reflexivity.
+  - cbn [req]. rewrite iso_rho_or_default, iso_Nk, iso_classes. apply oeq_refl.
+Qed.
+
+Theorem iso_EBCM rq full :
+  req oeq (EBCM_from_graph g' (map_req phi rq) full sv) (EBCM_from_graph g rq full sv).
+Proof.
+  unfold EBCM_from_graph, map_req. cbn [rq_I rq_R rq_rho]. rewrite !isSome_map. cbv zeta.
+  destruct (isSome (rq_rho rq) && isSome (rq_I rq)); [reflexivity|].
+  destruct (isSome (rq_rho rq) && isSome (rq_R rq)); [reflexivity|]. rewrite iso_gN.
+  destruct (rq_I rq) as [I0|]; cbn [option_map].
+  - init_cases2 I0 (rq_R rq) st' st Hst. cbn [rbind]. rewrite nodes_match.
+    assert (MC : forall (l : list node) (x y y' : result output), req oeq y y' ->
+              req oeq (match l with [] => x | _ :: _ => y end) (match l with [] => x | _ :: _ => y' end))
+      by (intros l x y y' H; destruct l; [apply req_refl, oeq_refl|exact H]).
+    apply MC.
+    assert (HS : forall u, isS st' (phi u) = isS st u) by (intros u; unfold isS; rewrite Hst; reflexivity).
+    assert (HR : forall u, isR st' (phi u) = isR st u) by (intros u; unfold isR; rewrite Hst; reflexivity).
+    assert (SX : sumQ (map (fun u => if isS st' u then Qnat (deg g' u) else 0) (gnodes g')) ==
+                 sumQ (map (fun u => if isS st u then Qnat (deg g u) else 0) (gnodes g)))
+      by (apply node_sum_iso; intros u Hu; rewrite HS, (iso_deg u Hu); reflexivity).
+    rewrite (Qeqb_comp _ _ 0 0 SX (Qeq_refl 0)). destruct (Qeqb _ 0); [reflexivity|]. cbn [req].
+    apply EBCM_proper; try exact SV; try reflexivity.
+    + intros a b Hab. apply iso_sumPk. intros k. rewrite iso_Pk, iso_Nk, (qc_pow a b _ Hab).
+      rewrite (iso_cnt (fun u => isS st u && Nat.eqb (deg g u) k) (fun u => isS st' u && Nat.eqb (deg g' u) k))
+        by (intros u Hu; rewrite HS, (iso_deg u Hu); reflexivity). reflexivity.
+    + rewrite (iso_cnt (isR st) (isR st')) by (intros u _; apply HR). reflexivity.
+  - cbn [req]. rewrite iso_rho_or_default. apply EBCM_proper; try exact SV; try reflexivity.
+    intros a b Hab. apply psihat_Pk_iso, Hab.
+Qed.
+
+(* every wrapper modelled in Model/Wrappers.v *)
+Theorem iso_run_entry e rq full : req oeq (run_entry e g' (map_req phi rq) full sv) (run_entry e g rq full sv).
+Proof.
+  destruct e; cbn [run_entry].
+  - rewrite iso_SIS_homogeneous_meanfield. apply req_refl, oeq_refl.
+  - rewrite iso_SIR_homogeneous_meanfield. apply req_refl, oeq_refl.
+  - apply iso_SIS_homogeneous_pairwise.
+  - apply iso_SIR_homogeneous_pairwise.
+  - rewrite iso_SIS_heterogeneous_meanfield. apply req_refl, oeq_refl.
+  - rewrite iso_SIR_heterogeneous_meanfield. apply req_refl, oeq_refl.
+  - apply iso_SIS_heterogeneous_pairwise.
+  - apply iso_SIR_heterogeneous_pairwise.
+  - apply iso_SIS_compact_pairwise.
+  - apply iso_SIR_compact_pairwise.
+  - apply iso_SIS_super_compact_pairwise.
+  - apply iso_SIR_super_compact_pairwise.
+  - rewrite iso_SIS_effective_degree. apply req_refl, oeq_refl.
+  - rewrite iso_SIR_effective_degree. apply req_refl, oeq_refl.
+  - apply iso_SIS_compact_pairwise.
+  - apply iso_SIR_compact_effective_degree.
+  - apply iso_EBCM.
+Qed.
+End WithSolver.
 End Iso.
